@@ -1556,3 +1556,122 @@ Proof.
   eexists. split; [vm_compute; reflexivity|]. split; [vm_compute; reflexivity|].
   vm_compute. intros E. discriminate E.
 Qed.
+
+(* =========================================================================================
+   What @deprecate does to the class table (model/Deprecate.v `deprecate`, `deprecate_all`):
+   the hypothesis `same_sig_class` of the identifier theorems is DERIVED from it.            *)
+Lemma deprecate_other cs k p j : j <> k -> nth_error (deprecate cs k p) j = nth_error cs j.
+Proof.
+  intros D. unfold deprecate. destruct (nth_error cs k); [|reflexivity]. destruct (nth_error cs p); [|reflexivity].
+  apply nth_upd_other. congruence.
+Qed.
+
+Lemma deprecate_at cs k p c pc : nth_error cs k = Some c -> nth_error cs p = Some pc ->
+  nth_error (deprecate cs k p) k = Some {| c_tid := c_tid pc; c_args := c_args c |}.
+Proof.
+  intros Ek Ep. unfold deprecate. rewrite Ek, Ep. apply nth_upd_same. eapply nth_error_lt; eassumption.
+Qed.
+
+(* the declared arguments are untouched: the params.json written before the deprecation is the one written after *)
+Lemma deprecate_same_args cs k p : same_args cs (deprecate cs k p).
+Proof.
+  intros j. destruct (Nat.eq_dec j k) as [->|D]; [|rewrite (deprecate_other cs k p j D); reflexivity].
+  unfold deprecate. destruct (nth_error cs k) as [c|] eqn:Ek; [|rewrite Ek; reflexivity].
+  destruct (nth_error cs p) as [pc|]; [|rewrite Ek; reflexivity].
+  rewrite nth_upd_same by (eapply nth_error_lt; eassumption). reflexivity.
+Qed.
+
+Lemma same_args_trans a b c : same_args a b -> same_args b c -> same_args a c.
+Proof. intros X Y j. rewrite (X j). apply Y. Qed.
+
+Lemma deprecate_all_same_args : forall steps cs, same_args cs (deprecate_all cs steps).
+Proof.
+  induction steps as [|s steps IH]; intros cs; [intros j; reflexivity|].
+  cbn [deprecate_all fold_left]. eapply same_args_trans; [apply deprecate_same_args|apply IH].
+Qed.
+
+Lemma same_args_at cs cs' j c : same_args cs cs' -> nth_error cs j = Some c ->
+  exists c', nth_error cs' j = Some c' /\ c_args c' = c_args c.
+Proof.
+  intros S E. specialize (S j). rewrite E in S. destruct (nth_error cs' j) as [c'|]; [|discriminate].
+  exists c'. split; [reflexivity|]. cbn in S. congruence.
+Qed.
+
+(* later deprecations of OTHER classes leave the pair alone *)
+Lemma deprecate_all_frame : forall s2 cs k p c pc,
+  nth_error cs k = Some c -> nth_error cs p = Some pc ->
+  (forall s, In s s2 -> fst s <> k /\ fst s <> p) ->
+  nth_error (deprecate_all cs s2) k = Some c /\ nth_error (deprecate_all cs s2) p = Some pc.
+Proof.
+  induction s2 as [|s s2 IH]; intros cs k p c pc Ek Ep Hs; [split; assumption|].
+  cbn [deprecate_all fold_left]. destruct (Hs s (or_introl eq_refl)) as [Dk Dp].
+  apply IH; [rewrite deprecate_other by congruence; exact Ek|rewrite deprecate_other by congruence; exact Ep|].
+  intros s' Hs'. apply Hs. right. exact Hs'.
+Qed.
+
+(* after the deprecations s1, then `@deprecate class k(p)`, then the deprecations s2 of other classes: the class k
+   and its replacement p have the same type identifier and the same arguments                                 *)
+Lemma deprecate_all_same_sig cs s1 k p s2 c pc :
+  nth_error cs k = Some c -> nth_error cs p = Some pc -> k <> p ->
+  Permutation (c_args c) (c_args pc) -> NoDup (map a_name (c_args c)) ->
+  (forall s, In s s2 -> fst s <> k /\ fst s <> p) ->
+  exists c' pc', nth_error (deprecate_all cs (s1 ++ (k, p) :: s2)) k = Some c' /\
+                 nth_error (deprecate_all cs (s1 ++ (k, p) :: s2)) p = Some pc' /\ same_sig_class c' pc'.
+Proof.
+  intros Ek Ep D P ND Hs.
+  unfold deprecate_all. rewrite fold_left_app. cbn [fold_left fst snd].
+  set (cs1 := fold_left (fun cs s => deprecate cs (fst s) (snd s)) s1 cs).
+  destruct (same_args_at cs cs1 k c (deprecate_all_same_args s1 cs) Ek) as [c1 [Ek1 Ea1]].
+  destruct (same_args_at cs cs1 p pc (deprecate_all_same_args s1 cs) Ep) as [p1 [Ep1 Eb1]].
+  pose proof (deprecate_at cs1 k p c1 p1 Ek1 Ep1) as Ek2.
+  assert (Ep2 : nth_error (deprecate cs1 k p) p = Some p1) by (rewrite deprecate_other by congruence; exact Ep1).
+  destruct (deprecate_all_frame s2 (deprecate cs1 k p) k p _ _ Ek2 Ep2 Hs) as [F1 F2].
+  eexists. eexists. split; [exact F1|]. split; [exact F2|].
+  split; [reflexivity|]. cbn [c_args]. rewrite Ea1, Eb1. split; assumption.
+Qed.
+
+(* A CONFIGURATION WHOSE CLASS IS DEPRECATED HAS THE IDENTIFIER ITS REPLACEMENT WOULD YIELD.  cs: the classes as
+   declared; the deprecations are performed in the order python executes them; x: any node of any graph whose class
+   is the deprecated class k.  Writing the graph with the replacement class p instead changes the identifier of NO
+   node (raw identifier, any hash function, any cache state) ...                                              *)
+Theorem deprecate_same_identifier H cs s1 k p s2 c pc h look n x :
+  nth_error cs k = Some c -> nth_error cs p = Some pc -> k <> p ->
+  Permutation (c_args c) (c_args pc) -> NoDup (map a_name (c_args c)) ->
+  (forall s, In s s2 -> fst s <> k /\ fst s <> p) ->
+  nth_error h n = Some x -> n_cls x = k ->
+  forall fuel m, raw_ident H (deprecate_all cs (s1 ++ (k, p) :: s2)) h look fuel m
+               = raw_ident H (deprecate_all cs (s1 ++ (k, p) :: s2)) (upd_nth h n (with_cls x p)) look fuel m.
+Proof.
+  intros Ek Ep D P ND Hs Ex Ecl fuel m.
+  destruct (deprecate_all_same_sig cs s1 k p s2 c pc Ek Ep D P ND Hs) as [c' [pc' [E1 [E2 Sg]]]].
+  apply (reclass_neutral H _ h look n x c' pc' p Ex); [rewrite Ecl; exact E1|exact E2|exact Sg].
+Qed.
+
+(* ... nor the FULL identifier (the name of the job directory) of any node *)
+Theorem deprecate_same_full_identifier H cs s1 k p s2 c pc h n x :
+  nth_error cs k = Some c -> nth_error cs p = Some pc -> k <> p ->
+  Permutation (c_args c) (c_args pc) -> NoDup (map a_name (c_args c)) ->
+  (forall s, In s s2 -> fst s <> k /\ fst s <> p) ->
+  wf_heap h -> nth_error h n = Some x -> n_cls x = k ->
+  forall fuel m d, m < length h ->
+    full_pure H (deprecate_all cs (s1 ++ (k, p) :: s2)) h fuel m = Ok d ->
+    full_pure H (deprecate_all cs (s1 ++ (k, p) :: s2)) (upd_nth h n (with_cls x p)) fuel m = Ok d.
+Proof.
+  intros Ek Ep D P ND Hs W Ex Ecl fuel m d Lm E.
+  destruct (deprecate_all_same_sig cs s1 k p s2 c pc Ek Ep D P ND Hs) as [c' [pc' [E1 [E2 Sg]]]].
+  apply (reclass_full H _ h n x c' pc' p W Ex); [rewrite Ecl; exact E1|exact E2|exact Sg|exact Lm|exact E].
+Qed.
+
+(* the instance above IS a deprecation: rx_now = @deprecate applied to rx_before; and a class renamed twice
+   (Older(Old), Old(New): two deprecations, the parent first) ends with the identifier of New               *)
+Example rx_now_is_deprecate : deprecate_all rx_before [(2, 1)] = rx_now.
+Proof. reflexivity. Qed.
+Example deprecate_chain :
+  map c_tid (deprecate_all [rx_task [110]%N; rx_task [111]%N; rx_task [114]%N] [(1, 0); (2, 1)]) = [[110]%N; [110]%N; [110]%N] /\
+  (* ... but not if the order were the other one (python cannot produce it: a parent is defined before its child) *)
+  map c_tid (deprecate_all [rx_task [110]%N; rx_task [111]%N; rx_task [114]%N] [(2, 1); (1, 0)]) = [[110]%N; [110]%N; [111]%N].
+Proof. split; reflexivity. Qed.
+(* without the swap the deprecated class keeps another identity: the theorem rests on what `deprecate` does *)
+Example without_deprecate_differs :
+  full_pure rx_H rx_before rx_heap 20 1 <> full_pure rx_H rx_before (upd_nth rx_heap 1 (with_cls rx_old_task 1)) 20 1.
+Proof. vm_compute. intros E. discriminate E. Qed.
